@@ -110,6 +110,7 @@ type c12Item struct {
 type c12Case struct {
 	Lockstep bool       `json:"lockstep"`
 	Mux      bool       `json:"mux"`
+	MaxLen   int64      `json:"maxlen"` // RelayOption.MaxMessageLength (0 = 1 MiB); every client frame is shorter
 	Frames   []c12Frame `json:"frames"`
 	// observation
 	RanLockstep bool      `json:"ran_lockstep"` // lock-step requested and no wait timed out
@@ -467,7 +468,7 @@ func c12EnvDur(name string, def int) time.Duration {
 type c12Rec struct {
 	mu       sync.Mutex
 	prog     chan struct{}
-	keys     map[string]int
+	keys     map[string][]int // rendering -> frames carrying that message, not yet received
 	script   map[int][]c12Out // frame index -> scripted replies
 	rendered map[string]int   // rendering of a scripted message -> serial
 	recv     []c12Recv
@@ -529,8 +530,9 @@ func (r *c12Rec) handler() mocrelay.Handler {
 				key := c12RenderReceived(m)
 				r.mu.Lock()
 				idx, same := -1, false
-				if i, ok := r.keys[key]; ok {
-					idx, same = i, true
+				if l := r.keys[key]; len(l) > 0 {
+					idx, same = l[0], true
+					r.keys[key] = l[1:]
 				}
 				r.recv = append(r.recv, c12Recv{idx, same})
 				outs := r.script[idx]
@@ -578,7 +580,7 @@ func (r *c12Rec) classify(typ websocket.MessageType, p []byte) c12Item {
 
 func c12Run(c *c12Case) {
 	c.Recv, c.Emitted, c.Client, c.Notes, c.RanLockstep = []c12Recv{}, []int{}, []c12Item{}, []string{}, false
-	rec := &c12Rec{prog: make(chan struct{}, 1), keys: map[string]int{}, script: map[int][]c12Out{},
+	rec := &c12Rec{prog: make(chan struct{}, 1), keys: map[string][]int{}, script: map[int][]c12Out{},
 		rendered: map[string]int{}, sentinel: -1, readDone: make(chan struct{})}
 	payloads := make([][]byte, len(c.Frames))
 	for i := range c.Frames {
@@ -593,11 +595,7 @@ func c12Run(c *c12Case) {
 		f.Obs = &obs
 		f.Exp.Text, f.Exp.UTF8, f.Exp.JSON = !f.Bin, utf8.Valid(p), json.Valid(p)
 		if f.Key != "" {
-			if _, dup := rec.keys[f.Key]; dup {
-				rec.notes = append(rec.notes, fmt.Sprintf("frames %d and another carry the same message", i))
-			} else {
-				rec.keys[f.Key] = i
-			}
+			rec.keys[f.Key] = append(rec.keys[f.Key], i)
 		}
 		rec.script[i] = f.Out
 		for _, o := range f.Out {
@@ -608,11 +606,19 @@ func c12Run(c *c12Case) {
 		}
 	}
 
+	if c.MaxLen <= 0 {
+		c.MaxLen = 1 << 20
+	}
+	for i, p := range payloads {
+		if int64(len(p)) > c.MaxLen {
+			rec.notes = append(rec.notes, fmt.Sprintf("harness: frame %d is longer than the configured limit", i))
+		}
+	}
 	opt := &mocrelay.RelayOption{
 		SendTimeout:        30 * time.Second,
 		RecvRateLimitRate:  1e9,
 		RecvRateLimitBurst: 1e9,
-		MaxMessageLength:   1 << 20,
+		MaxMessageLength:   c.MaxLen,
 		PingDuration:       time.Minute,
 	}
 	relay := mocrelay.NewRelay(rec.handler(), opt)
@@ -746,6 +752,7 @@ func c12Run(c *c12Case) {
 type c12Gen struct {
 	r      *common.Rand
 	serial int
+	sent   []*common.JEvent // genuine events already sent in text EVENT frames of this case
 }
 
 func c12Hex(seed string) string {
@@ -913,6 +920,7 @@ type c12Built struct {
 	evid    string
 	key     string
 	sub     *string
+	ev      *common.JEvent
 }
 
 func c12MsgJSON(label string, rest ...string) string {
@@ -946,7 +954,7 @@ func (g *c12Gen) closeMsg(i int) c12Built {
 
 func (g *c12Gen) eventMsg(cls, label string, e *common.JEvent, valid bool, verify string) c12Built {
 	b := c12Built{cls: cls, payload: []byte(c12MsgJSON(label, c12EventJSON(e))), parse: label, valid: valid, verify: verify,
-		key: c12RenderMsg(c12RMsg{Label: label, Event: e})}
+		key: c12RenderMsg(c12RMsg{Label: label, Event: e}), ev: e}
 	if label == "EVENT" {
 		b.evid = e.ID
 	} else {
@@ -958,6 +966,11 @@ func (g *c12Gen) eventMsg(cls, label string, e *common.JEvent, valid bool, verif
 // valid draws a frame that must be forwarded.
 func (g *c12Gen) validFrame(i int) c12Built {
 	r := g.r
+	if len(g.sent) > 0 && r.Chance(8) {
+		// the same genuine event again: a well-formed valid authentic message, to be forwarded again
+		e := *common.Pick(r, g.sent)
+		return g.eventMsg("event_again", "EVENT", &e, true, "ok")
+	}
 	switch r.Intn(10) {
 	case 0, 1:
 		return g.reqLike(i, "REQ")
@@ -1003,6 +1016,9 @@ func (g *c12Gen) rejectFrame(i int) c12Built {
 	switch r.Intn(9) {
 	case 0: // a perfectly good message in a binary frame
 		b := g.validFrame(i)
+		if b.cls == "event_again" { // keep the attribution of received messages to frames unambiguous
+			b = g.closeMsg(i)
+		}
 		b.cls, b.bin = "binary", true
 		return b
 	case 1: // invalid UTF-8 in a text frame
@@ -1140,6 +1156,20 @@ func c12ReSign(e *common.JEvent) {
 
 func (g *c12Gen) forged(i int) c12Built {
 	r := g.r
+	if len(g.sent) > 0 && r.Chance(30) {
+		// id, pubkey and signature of an event the relay has already accepted on this connection,
+		// one signed field altered
+		e := *common.Pick(r, g.sent)
+		switch r.Intn(3) {
+		case 0:
+			e.Content += " (altered #" + strconv.Itoa(i) + ")"
+		case 1:
+			e.TS += int64(1 + i)
+		default:
+			e.Tags = append(append([][]string{}, e.Tags...), []string{"t", "altered" + strconv.Itoa(i)})
+		}
+		return g.eventMsg("forged_seen_id", "EVENT", &e, true, "bad")
+	}
 	e := g.event(i, common.Pick(r, c12EventKinds()))
 	switch r.Intn(9) {
 	case 0:
@@ -1212,7 +1242,7 @@ func (g *c12Gen) defectFrame(i int, which int) c12Built {
 	}
 }
 
-func (g *c12Gen) outs(final bool) []c12Out {
+func (g *c12Gen) outs(final bool, maxLen int64) []c12Out {
 	r := g.r
 	if final {
 		g.serial++
@@ -1238,6 +1268,13 @@ func (g *c12Gen) outs(final bool) []c12Out {
 			o.T, o.A, o.Ev = "EVENT", tok+" "+g.word(), e
 		case 2:
 			o.T, o.A = "NOTICE", tok+": "+g.word()+" 通知 😀"
+			if maxLen < 1<<16 && r.Chance(50) {
+				// ["NOTICE","<text>"] of a length at, just around, or well beyond the limit for client frames
+				want := int(maxLen) + common.Pick(r, []int{-1, 0, 1, 2, 200})
+				if pad := want - len(c12JSON([]string{"NOTICE", o.A})); pad > 0 {
+					o.A += strings.Repeat("x", pad)
+				}
+			}
 		case 3:
 			o.T, o.A, o.Acc = "OK", c12Hex(tok), r.Bool()
 			o.P = common.Pick(r, []string{"", "duplicate: ", "blocked: ", "invalid: ", "error: ", "pow: ", "rate-limited: "})
@@ -1281,6 +1318,7 @@ func c12Generate(r *common.Rand, idx int) c12Case {
 	if os.Getenv("C12_NO_DEFECT_CLASSES") != "" { // for mutation testing while the defects are not yet listed
 		defectAt = -1
 	}
+	var built []c12Built
 	for i := 0; i < n; i++ {
 		var b c12Built
 		switch {
@@ -1291,7 +1329,11 @@ func c12Generate(r *common.Rand, idx int) c12Case {
 		default:
 			b = g.rejectFrame(i)
 		}
-		c.Frames = append(c.Frames, c12FrameOf(b, g.outs(false)))
+		if b.cls == "event" && !b.bin && b.ev != nil {
+			g.sent = append(g.sent, b.ev)
+		}
+		built = append(built, b)
+		c.Frames = append(c.Frames, c12FrameOf(b, nil))
 	}
 	// the connection must still be usable: a final valid message whose reply is the sentinel
 	var last c12Built
@@ -1301,7 +1343,23 @@ func c12Generate(r *common.Rand, idx int) c12Case {
 		last = g.reqLike(n, "REQ")
 	}
 	last.cls = "final_" + last.cls
-	c.Frames = append(c.Frames, c12FrameOf(last, g.outs(true)))
+	built = append(built, last)
+	c.Frames = append(c.Frames, c12FrameOf(last, nil))
+	// the size limit bounds the frames the CLIENT sends, not what the handler emits: in 40% of the cases the limit is
+	// just above the longest client frame and some handler output is at or beyond it
+	c.MaxLen = 1 << 20
+	longest := 0
+	for _, b := range built {
+		if len(b.payload) > longest {
+			longest = len(b.payload)
+		}
+	}
+	if r.Chance(40) {
+		c.MaxLen = int64(longest + 16 + r.Intn(48))
+	}
+	for i := range c.Frames {
+		c.Frames[i].Out = g.outs(i == len(c.Frames)-1, c.MaxLen)
+	}
 	// sanity of the generator itself (a failure here is a harness bug, not a finding)
 	for i, f := range c.Frames {
 		p, _ := base64.StdEncoding.DecodeString(f.B64)
@@ -1324,7 +1382,7 @@ func c12CorpusCases() []c12Case {
 	mk := func(b c12Built) c12Case {
 		last := g.closeMsg(1)
 		last.cls = "final_close"
-		return c12Case{Lockstep: true, Frames: []c12Frame{c12FrameOf(b, []c12Out{}), c12FrameOf(last, g.outs(true))}}
+		return c12Case{Lockstep: true, Frames: []c12Frame{c12FrameOf(b, []c12Out{}), c12FrameOf(last, g.outs(true, 1<<20))}}
 	}
 	ev := func(kind int64, content string) *common.JEvent {
 		e := &common.JEvent{TS: 1700000000, Kind: kind, Tags: [][]string{}, Content: content}
